@@ -24,6 +24,9 @@ enum Act {
 	Refresh,
 	FullRefresh,
 	Scan,
+	/// scan that also deletes unconfirmed outputs and cancels their transactions (scan --delete_unconfirmed):
+	/// a reverted payment is not an unconfirmed one and must survive it
+	ScanDelete,
 	/// an ordinary refresh first, then a scan while the node is still at the same height
 	RefreshThenScan,
 	RefreshThenFullRefresh,
@@ -74,6 +77,7 @@ fn act(w: &World, a: Act) -> Result<(), String> {
 		Act::Refresh => catch(|| b.refresh().map(|_| ())),
 		Act::FullRefresh => catch(|| owner::update_wallet_state(b.inst.clone(), None, &None, true).map(|_| ())),
 		Act::Scan => catch(|| b.scan(Some(1), false)),
+		Act::ScanDelete => catch(|| b.scan(Some(1), true)),
 		Act::RefreshThenScan => catch(|| b.refresh().and_then(|_| b.scan(Some(1), false))),
 		Act::RefreshThenFullRefresh => catch(|| b.refresh().and_then(|_| owner::update_wallet_state(b.inst.clone(), None, &None, true).map(|_| ()))),
 	};
@@ -229,7 +233,7 @@ fn run_case(dir: &str, base: &Snapshot, c: &Case) -> (Vec<(String, String)>, u64
 			problems.push((format!("action-fails/{:?}", a), format!("{:?} after head flip {} failed: {}", a, i, e)));
 			continue;
 		}
-		if matches!(a, Act::Scan | Act::FullRefresh | Act::RefreshThenScan | Act::RefreshThenFullRefresh) {
+		if matches!(a, Act::Scan | Act::ScanDelete | Act::FullRefresh | Act::RefreshThenScan | Act::RefreshThenFullRefresh) {
 			oracles += 1;
 			let mut p = vec![];
 			oracle(&w, &cx, *a, &mut p);
@@ -241,7 +245,7 @@ fn run_case(dir: &str, base: &Snapshot, c: &Case) -> (Vec<(String, String)>, u64
 	// final: if the payment is not on the current chain, get it re-mined; an ORDINARY refresh must then
 	// report it confirmed and spendable again (provided the wallet had learnt that it was reverted)
 	let kernel = cx.tx.kernels()[0].excess;
-	let last_was_full = matches!(c.acts.last(), Some(Act::Scan) | Some(Act::FullRefresh) | Some(Act::RefreshThenScan) | Some(Act::RefreshThenFullRefresh));
+	let last_was_full = matches!(c.acts.last(), Some(Act::Scan) | Some(Act::ScanDelete) | Some(Act::FullRefresh) | Some(Act::RefreshThenScan) | Some(Act::RefreshThenFullRefresh));
 	if w.node.kernel_on_chain(&kernel).is_none() && last_was_full {
 		if w.w("A").post(&cx.tx).is_ok() {
 			w.mine("M").unwrap();
@@ -276,7 +280,7 @@ fn run_case(dir: &str, base: &Snapshot, c: &Case) -> (Vec<(String, String)>, u64
 
 fn cases(thorough: bool) -> Vec<Case> {
 	let mut v = vec![];
-	let acts = [Act::Scan, Act::FullRefresh, Act::Refresh, Act::Nothing, Act::RefreshThenScan, Act::RefreshThenFullRefresh];
+	let acts = [Act::Scan, Act::FullRefresh, Act::Refresh, Act::Nothing, Act::RefreshThenScan, Act::RefreshThenFullRefresh, Act::ScanDelete];
 	let mut seqs: Vec<Vec<Act>> = vec![];
 	for a in acts.iter() {
 		seqs.push(vec![*a]);
@@ -294,7 +298,7 @@ fn cases(thorough: bool) -> Vec<Case> {
 		}
 	}
 	// only sequences that end in (or contain) an oracle point are informative
-	seqs.retain(|s| s.iter().any(|a| matches!(a, Act::Scan | Act::FullRefresh | Act::RefreshThenScan | Act::RefreshThenFullRefresh)));
+	seqs.retain(|s| s.iter().any(|a| matches!(a, Act::Scan | Act::ScanDelete | Act::FullRefresh | Act::RefreshThenScan | Act::RefreshThenFullRefresh)));
 	for depth in (if thorough { vec![1u64, 2, 3] } else { vec![1u64, 2] }).iter() {
 		for after in [1u64, 0].iter() {
 			for fork_has_tx in [false, true].iter() {
@@ -369,7 +373,7 @@ pub fn run(_args: &[String]) -> i32 {
 	rep.cov("distinct_nontrivial", json!(oracles));
 	rep.cov("rule", json!("one case = (fork depth below the receiving block, blocks after it, fork with/without the tx, extra fork length, sequence of wallet actions after each of up to three head flips); non-trivial count = oracle evaluations after a scan / full refresh / re-mining refresh"));
 	rep.cov("exhaustive", json!(true));
-	rep.cov("dimensions", json!({"fork_depths": if thorough { vec![1,2,3] } else { vec![1,2] }, "blocks_after": [1,0], "fork_has_tx": [false,true], "extra_fork_blocks": if thorough { vec![0,1] } else { vec![0] }, "actions": ["Scan","FullRefresh","Refresh","Nothing","RefreshThenScan","RefreshThenFullRefresh"], "max_head_flips": 3, "cases": n}));
+	rep.cov("dimensions", json!({"fork_depths": if thorough { vec![1,2,3] } else { vec![1,2] }, "blocks_after": [1,0], "fork_has_tx": [false,true], "extra_fork_blocks": if thorough { vec![0,1] } else { vec![0] }, "actions": ["Scan","FullRefresh","Refresh","Nothing","RefreshThenScan","RefreshThenFullRefresh","ScanDelete"], "max_head_flips": 3, "cases": n}));
 	rep.cov("outcomes", json!(hist));
 	rep.cov("samples", json!([cs[0], cs[5], cs[cs.len() - 1]]));
 	rep.assume("'full refresh' = update_wallet_state with update_all = true (what scan runs first); reorgs are built on a real grin_chain with side branches of real blocks");
